@@ -25,6 +25,7 @@ compile and the proof obligation breaks):
                let pat = if let p = e { .. } else { .. };
                continue;
                while c { block }   loop { block }    a loop: a function of its own, recursive on fuel
+               for pat in e { block }           a function of its own, structurally recursive on the items of e
                if c { block } else { block }    as a statement
   tail         match s { pat => tail | block , ... }
                if c { block } else { block }            a pure expression
@@ -253,6 +254,14 @@ class Parser:
                 c = self.cond()
                 body = self.block()
                 stmts.append(("while", c, body))
+                continue
+            if tok == "for":
+                self.eat()
+                pat = self.pattern()
+                self.eat("in")
+                it = self.postfix()
+                body = self.block()
+                stmts.append(("for", pat, it, body))
                 continue
             if tok == "loop":
                 self.eat()
@@ -1068,6 +1077,27 @@ class Gen:
             _, c, body, els = s
             return "(if %s then\n%s\nelse\n%s)" % (self.cond(c, env), self.block(body, env, lambda env2, _v: cont(env2)),
                                                      self.block(els, env, lambda env2, _v: cont(env2)))
+        if kind == "for":
+            # `for pat in e { .. }`: a function of its own, structurally recursive on the items
+            _, fpat, it, body = s
+            lname = "%s_loop%d" % (self.cname, len(self.loops) + 1)
+            self.loops.append(None)   # reserve the number
+            slot = len(self.loops) - 1
+
+            def run(env1, itv):
+                names = sorted(env1.keys(), key=lambda v: (v != "self", v))
+                inner = {v: "%s_l" % v.replace("'", "") for v in names}
+
+                def again(env2, _v):
+                    return "(%s rest_ %s)" % (lname, " ".join(env2[v] for v in names))
+                self.again.append(again)
+                body_code = self.pat(fpat, "x_", inner, lambda env2: self.block(body, env2, again), self.stuck(inner))
+                self.again.pop()
+                rest_code = cont(inner)
+                self.loops[slot] = "Fixpoint %s (items_ : list val) %s{struct items_} : %s :=\nmatch items_ with\n| [] =>\n%s\n| x_ :: rest_ =>\n%s\nend." % (
+                    lname, "".join("(%s : val) " % inner[v] for v in names), self.ty, rest_code, body_code)
+                return "(%s (v_items %s) %s)" % (lname, itv, " ".join(env1[v] for v in names))
+            return self.ev(it, env, run)
         if kind == "while":
             # a loop is a function of its own, recursive on fuel, of every variable in scope: those the
             # body rebinds (and the threaded ones) change from one round to the next; what follows the
